@@ -1068,9 +1068,15 @@ func (ce *commandEncoder) end() {
 // commandEncoder.end to release the lock.
 func (ce *commandEncoder) flush() {
 	if err := ce.Encoder.CRLF(); err != nil {
-		// TODO: consider stashing the error in Client to return it in future
-		// calls
-		ce.client.closeWithError(err)
+		// If a synchronizing literal has been refused by the server with a
+		// tagged NO or BAD, the command is over and nothing more has been
+		// written: the connection is still usable
+		var imapErr *imap.Error
+		if !errors.As(err, &imapErr) {
+			// TODO: consider stashing the error in Client to return it in
+			// future calls
+			ce.client.closeWithError(err)
+		}
 	}
 	ce.Encoder = nil
 }
@@ -1081,6 +1087,11 @@ func (ce *commandEncoder) Literal(size int64) io.WriteCloser {
 	ce.client.mutex.Lock()
 	hasCapLiteralMinus := ce.client.caps.Has(imap.CapLiteralMinus)
 	ce.client.mutex.Unlock()
+	if err := ce.Encoder.Err(); err != nil {
+		// The command has already failed (e.g. a previous literal has been
+		// refused): don't register a continuation request nobody will wait for
+		return errorWriteCloser{err}
+	}
 	if size > 4096 || !hasCapLiteralMinus {
 		contReq = ce.client.registerContReq(ce.cmd)
 	}
@@ -1089,6 +1100,18 @@ func (ce *commandEncoder) Literal(size int64) io.WriteCloser {
 		WriteCloser: ce.Encoder.Literal(size, contReq),
 		client:      ce.client,
 	}
+}
+
+type errorWriteCloser struct {
+	err error
+}
+
+func (ew errorWriteCloser) Write(b []byte) (int, error) {
+	return 0, ew.err
+}
+
+func (ew errorWriteCloser) Close() error {
+	return ew.err
 }
 
 type literalWriter struct {
